@@ -258,7 +258,7 @@ func checkC07(c *Ctx, r *Report) {
 					continue
 				}
 				a := sliceOf(cnd)
-				emptyTest := (bo.Op == token.EQL && pol || bo.Op == token.NEQ && !pol) && (hasConst(a, `""`) || (a.Builtin["len"] && hasConst(a, "0")))
+				emptyTest := (bo.Op == token.EQL && pol || bo.Op == token.NEQ && !pol) && (hasConst(a, `""`) || (a.Calls["builtin.len"] && hasConst(a, "0")))
 				if emptyTest && a.Calls["strings.Split"] {
 					viol = ""
 					sites = append(sites, w.pos(retPos(ex)))
